@@ -343,7 +343,7 @@ theorem exact_eq_approx_disjoint (d : Dom) (cliques : List Clique) (t : Tree)
   have hO : OracleOK d cliques pots :=
     ⟨hok.dom_wf, hdis, hne, hok.clique_ok, by rw [← keys_expPots]; exact hok.keys, hpot⟩
   have hZ : partition d (expPots pots) ≠ 0 := (partition_expPots_pos d hok.dom_wf pots σ hσ).ne'
-  obtain ⟨b1, b2⟩ := C01.bp_marginals d cliques t order (expPots pots) hok ⟨T⟩ hZ c hc σ hσ
+  obtain ⟨b1, b2⟩ := Sem.BP.bp_marginals d cliques t order (expPots pots) hok ⟨T⟩ hZ c hc σ hσ
   obtain ⟨o1, o2, o3⟩ := disjoint_oracle_exact d cliques pots hO T hT i₁ i₂ i₃ rho conv hi m₁ m₂
     c hc σ hσ
   refine ⟨?_, by rw [b2, o1], by rw [b2, o2], by rw [b2, o3]⟩
